@@ -426,6 +426,7 @@ package parser
 //@   ensures result ==> len(l.word) == 0
 //@   loop "for _, a := range l.aliases" invariant[C01 C17] not-on-the-stack-so-far: forall j: 0 <= j && j <= rangeindex ==> l.aliases[j].name != w.Value
 //@   ensures[C17] only-an-unquoted-alias-name: result ==> old(len(l.word)) == 1 && old(l.word[0]) is *ast.Lit && l.env != nil && has(l.env.Aliases, old(l.word[0].(*ast.Lit).Value))
+//@   ensures[C17] a-word-that-names-an-alias-is-replaced: l.env != nil && old(len(l.word)) == 1 && old(l.word[0]) is *ast.Lit && has(l.env.Aliases, old(l.word[0].(*ast.Lit).Value)) && (forall j: 0 <= j && j < old(len(l.aliases)) ==> old(l.aliases[j].name) != old(l.word[0].(*ast.Lit).Value)) ==> result
 //@   ensures[C01 C17] one-pushed: result ==> len(l.aliases) == old(len(l.aliases)) + 1
 //@   ensures[C17] rest-of-the-stack-kept: result ==> (forall j: 0 <= j && j < old(len(l.aliases)) ==> l.aliases[j] == old(l.aliases[j]))
 //@   ensures[C01 C17] never-inside-its-own-expansion: result ==> (forall j: 0 <= j && j < old(len(l.aliases)) ==> old(l.aliases[j].name) != old(l.word[0].(*ast.Lit).Value))
